@@ -73,6 +73,20 @@ def osCmd (st : DState) : List (List Char) → Option (DState × List (List Char
     | "os.creat", [stack, p, data] =>
         -- Create + Write(data) + Close as one composite
         some (runDirect st stack (.creat p (String.ofList data)))
+    | "os.creatread", [stack, p, data] => do
+        -- Create + Write(data) + read back through the same handle + Close
+        let fs := buildFS (parseStack stack)
+        match fs.call st.fs (.create p) with
+        | (m1, .error e) => pure ({ st with fs := m1 }, [s2l "err", s2l (errName e)])
+        | (m1, .ok (.handle h)) =>
+          let (m2, wr) := if data = [] then (m1, Except.ok ()) else fs.hwrite m1 h 0 (String.ofList data)
+          (match wr with
+           | .error e => pure ({ st with fs := m2 }, [s2l "err-write", s2l (errName e)])
+           | .ok () =>
+             match fs.hread m2 h with
+             | .error e => pure ({ st with fs := m2 }, [s2l "err-read", s2l (errName e)])
+             | .ok d => pure ({ st with fs := m2 }, [s2l "ok", h.name, d.toList]))
+        | (m1, .ok _) => pure ({ st with fs := m1 }, [s2l "err", s2l "other"])
     | "os.read", [stack, p] => do
         -- Open + ReadAll (file) or Readdirnames(-1) sorted (directory) + Close
         let fs := buildFS (parseStack stack)
